@@ -19,7 +19,7 @@ type mcase struct {
 }
 
 type emitter struct {
-	strings, regexps, ints, lexes, types, parses, values, creates []mcase
+	strings, regexps, ints, lexes, types, parses, values, creates, objects, objectsR []mcase
 	pfloats                                                       map[string]bool
 	letters                                                       map[rune]bool
 	failed                                                        bool // set by evaluate for the current input
@@ -220,6 +220,13 @@ func (e *emitter) flush(cfg *lib.Config, res *lib.Result) {
 	if len(e.creates) > 0 || cfg.Replay == "" {
 		imports = []string{"Model.Base", "Model.Ty", "Model.QuoteLex", "Model.TypePrint", "Corr.CorrC05"}
 		write("create", "tname * list pv * option ty * list ty", "creator_arguments", "create_mismatches cases", e.creates, "")
+	}
+	if len(e.objects) > 0 || cfg.Replay == "" {
+		imports = []string{"Model.Base", "Model.ObjectPrint", "Corr.CorrC05"}
+		write("objects", "otab * ihash N N * ores (list oattr) * option (ihash N N)", "object_init_hash", "object_mismatches cases", e.objects, "")
+		if len(e.objectsR) > 0 || cfg.Replay == "" {
+			write("objects_random", "otab * ihash N N * ores (list oattr) * option (ihash N N)", "object_init_hash_random", "object_mismatches cases", e.objectsR, "")
+		}
 	}
 	flushTypes(e, cfg, res, budget)
 }
